@@ -548,7 +548,170 @@ table2!(num_ops, num_ops_r, [Numeric + FromV], |name, x, st: &[V], a: &[&str]| {
     })
 });
 
+// ---------------------------------------------------------------- robustness streams, part 2: std traits of `Array` (monitor + native expectation)
+
+fn bad(msg: String) { BAD.with(|b| b.borrow_mut().push(msg)); }
+fn same_elem<T: ArrayElement>(x: &T, y: &T) -> bool { x == y || (x.is_nan() && y.is_nan()) }
+/// `got` must be the flat array of exactly the items the iterator yields
+fn chk_collect<T: ArrayElement>(want: &[T], hint: (usize, Option<usize>), got: &Array<T>, how: &str) {
+    let shape = got.get_shape().unwrap_or_default();
+    let el = got.get_elements().unwrap_or_default();
+    if shape != vec![want.len()] || el.len() != want.len() {
+        bad(format!("{how} of an iterator that yields {} items (size hint {:?}) returned an array of shape {:?} holding {} elements", want.len(), hint, shape, el.len()));
+    } else if !el.iter().zip(want).all(|(x, y)| same_elem(x, y)) {
+        bad(format!("{how} of an iterator that yields {} items returned other elements than the iterator yields", want.len()));
+    }
+    chk(got);
+}
+/// run a std-trait call that must not fail; a panic is a finding of its own (it is then re-raised: outcome class `panic`)
+fn must_not_panic<R>(what: &str, f: impl FnOnce() -> R) -> R {
+    match catch_unwind(AssertUnwindSafe(f)) { Ok(r) => r, Err(p) => { bad(format!("{what} panicked")); std::panic::resume_unwind(p) } }
+}
+/// the same iterator three ways: into a `Vec` (the reference), `collect::<Array<_>>()` and `Array::from_iter`
+macro_rules! it3 { ($e:expr) => {{
+    let hint__ = { let i__ = $e; i__.size_hint() };
+    let want__: Vec<_> = $e.collect();
+    let got__ = must_not_panic("collect::<Array<_>>()", || $e.collect::<Array<_>>());
+    let got2__ = must_not_panic("Array::from_iter", || Array::from_iter($e));
+    chk_collect(&want__, hint__, &got2__, "Array::from_iter");
+    chk_collect(&want__, hint__, &got__, "collect::<Array<_>>()");
+    Ok::<_, ArrayError>(got__)
+}}; }
+/// `z` must be an exact copy of `src`
+fn same_as<T: ArrayElement>(z: &Array<T>, src: &Array<T>, how: &str) {
+    let (zs, ss) = (z.get_shape().unwrap_or_default(), src.get_shape().unwrap_or_default());
+    let (ze, se) = (z.get_elements().unwrap_or_default(), src.get_elements().unwrap_or_default());
+    if zs != ss || ze.len() != se.len() { bad(format!("{how}: the copy has shape {:?} with {} elements, the source shape {:?} with {} elements", zs, ze.len(), ss, se.len())); }
+    else if !ze.iter().zip(&se).all(|(x, y)| same_elem(x, y)) { bad(format!("{how}: the copy of an array of shape {:?} holds other elements than the source", ss)); }
+    chk(z);
+}
+/// every way std reaches `Clone::clone_from` of an `Array`: the target `t` is overwritten with the source `s`
+fn clone_from_how<T: ArrayElement>(t: &Array<T>, s: &Array<T>, how: &str) -> Result<Array<T>, ArrayError> {
+    let what = format!("clone_from ({how}) of a target of shape {:?} from a source of shape {:?}", t.get_shape().unwrap_or_default(), s.get_shape().unwrap_or_default());
+    let z = must_not_panic(&what, || -> Result<Array<T>, ArrayError> { Ok(match how {
+        "direct" => { let mut z = t.clone(); z.clone_from(s); z }
+        "twice" => { let mut z = t.clone(); z.clone_from(s); z.clone_from(t); z.clone_from(s); z }
+        "into" => { let mut z = t.clone(); s.clone_into(&mut z); z }
+        "option" => { let mut o = Some(t.clone()); o.clone_from(&Some(s.clone())); o.ok_or(ArrayError::NotImplemented)? }
+        "box" => { let mut b = Box::new(t.clone()); b.clone_from(&Box::new(s.clone())); *b }
+        "result" => { let mut r: Result<Array<T>, ArrayError> = Ok(t.clone()); r.clone_from(&Ok(s.clone())); r? }
+        "vec1" => { let mut v = vec![t.clone()]; v.clone_from(&vec![s.clone()]); v.pop().ok_or(ArrayError::NotImplemented)? }
+        "slice" => { let mut v = vec![t.clone()]; v.clone_from_slice(&[s.clone()]); v.pop().ok_or(ArrayError::NotImplemented)? }
+        // aliasing: the source is a copy of the target itself
+        "self" => { let mut z = t.clone(); let c = z.clone(); z.clone_from(&c); z.clone_from(s); z }
+        _ => return Err(ArrayError::NotImplemented),
+    }) })?;
+    same_as(&z, s, &what);
+    Ok(z)
+}
+fn clone_from_list_how<T: ArrayElement>(t: &[Array<T>], s: &[Array<T>], how: &str) -> Result<Vec<Array<T>>, ArrayError> {
+    let sh = |l: &[Array<T>]| l.iter().map(|x| show_list(&x.get_shape().unwrap_or_default())).collect::<Vec<_>>().join("/");
+    let what = format!("clone_from ({how}) of a list of shapes {} from a list of shapes {}", sh(t), sh(s));
+    let v = must_not_panic(&what, || -> Result<Vec<Array<T>>, ArrayError> { Ok(match how {
+        "vec" => { let mut v = t.to_vec(); v.clone_from(&s.to_vec()); v }
+        "into" => { let mut v = t.to_vec(); s.clone_into(&mut v); v }
+        "slice" => { if t.len() != s.len() { return Err(ArrayError::NotImplemented); } let mut v = t.to_vec(); v.clone_from_slice(s); v }
+        "deque" => { let mut d: std::collections::VecDeque<Array<T>> = t.iter().cloned().collect(); d.clone_from(&s.iter().cloned().collect()); d.into_iter().collect() }
+        "boxed" => { if t.len() != s.len() { return Err(ArrayError::NotImplemented); } let mut b: Box<[Array<T>]> = t.to_vec().into_boxed_slice(); b.clone_from(&s.to_vec().into_boxed_slice()); b.into_vec() }
+        _ => return Err(ArrayError::NotImplemented),
+    }) })?;
+    if v.len() != s.len() { bad(format!("{what}: {} members instead of {}", v.len(), s.len())); }
+    for (k, (z, src)) in v.iter().zip(s).enumerate() { same_as(z, src, &format!("{what}, member {k}")); }
+    Ok(v)
+}
+/// two lists of one element type
+macro_rules! on_list2 {
+    ($lt:expr, $ls:expr, |$t:ident, $s:ident| $body:expr) => {{
+        let (lt, ls): (&Vec<V>, &Vec<V>) = ($lt, $ls);
+        macro_rules! go { ($ty:ty) => {{ match (arrs_of::<$ty>(lt), arrs_of::<$ty>(ls)) { (Some($t), Some($s)) => fin($body), _ => skip() } }}; }
+        match ls.first().or(lt.first()) {
+            None | Some(V::I32(_)) => go!(i32), Some(V::I64(_)) => go!(i64), Some(V::U8(_)) => go!(u8), Some(V::Us(_)) => go!(usize), Some(V::F64(_)) => go!(f64),
+            Some(V::B(_)) => go!(bool), Some(V::S(_)) => go!(String), Some(V::T2(_)) => go!(T2), Some(V::Is(_)) => go!(isize), Some(V::I8(_)) => go!(i8), _ => skip(),
+        }
+    }};
+}
+fn re_map<T: ArrayElement>(x: &Array<T>) -> Result<Array<T>, ArrayError> {
+    let plain = x.map(|e| e.clone())?;
+    let z = x.map_e(|i, e| { if i % 7 == 0 { if let Ok(inner) = x.map(|f| f.clone()) { chk(&inner); } } e.clone() })?;
+    same_as(&z, &plain, "map_e whose closure calls map on the same array"); Ok(z)
+}
+fn re_filter<T: ArrayElement>(x: &Array<T>, m: usize, t: usize) -> Result<Array<T>, ArrayError> {
+    let plain = x.filter_e(|i, _| i % m < t)?;
+    let z = x.filter_e(|i, _| { if i % 5 == 0 { if let Ok(inner) = x.filter_e(|j, _| j % 2 == 0) { chk(&inner); } } i % m < t })?;
+    same_as(&z, &plain, "filter_e whose closure calls filter_e on the same array"); Ok(z)
+}
+fn re_filter_map<T: ArrayElement>(x: &Array<T>, m: usize, t: usize) -> Result<Array<T>, ArrayError> {
+    let plain: Array<T> = x.filter_map_e(|i, e| if i % m < t { Some(e.clone()) } else { None })?;
+    let z: Array<T> = x.filter_map_e(|i, e| { if i % 5 == 0 { let inner: Result<Array<T>, ArrayError> = x.filter_map_e(|j, f| if j % 3 == 0 { Some(f.clone()) } else { None }); if let Ok(inner) = inner { chk(&inner); } } if i % m < t { Some(e.clone()) } else { None } })?;
+    same_as(&z, &plain, "filter_map_e whose closure calls filter_map_e on the same array"); Ok(z)
+}
+fn re_apply<T: ArrayElement>(x: &Array<T>, ax: usize) -> Result<Array<T>, ArrayError> {
+    let plain = x.apply_along_axis(ax, |l| l.flip(None))?;
+    let mut calls = 0usize;
+    let z = x.apply_along_axis(ax, |l| { calls += 1; if calls % 4 == 1 { if let Ok(inner) = x.apply_along_axis(ax, |m| m.flip(None)) { chk(&inner); } } l.flip(None) })?;
+    same_as(&z, &plain, "apply_along_axis whose closure calls apply_along_axis on the same array"); Ok(z)
+}
+fn re_fold<T: ArrayElement>(x: &Array<T>) -> Result<Array<T>, ArrayError> {
+    let total = x.get_elements()?.len();
+    let n = x.fold(0usize, |acc, _| { if acc % 9 == 0 { let inner = x.fold(0usize, |b, _| b + 1).unwrap_or(usize::MAX); if inner != total { bad(format!("fold inside fold visits {inner} of {total} elements")); } } acc + 1 })?;
+    if n != total { bad(format!("fold whose closure calls fold visits {n} of {total} elements")); }
+    x.ravel()
+}
+/// std-trait steps: `FromIterator` from every kind of iterator (exact, filtered, chained, cut short, unbounded, empty), `IntoIterator` by
+/// value and by reference, `Clone::clone` / `clone_from` through every std path, and closures that re-enter the operation
+fn run_std_traits(st: &[V], name: &str, a: &[&str], ty: &str) -> Option<Out> {
+    macro_rules! g { ($i:expr) => { match get(st, a[$i]) { Some(v) => v, None => return Some(skip()) } }; }
+    macro_rules! gl { ($i:expr) => { match getl(st, a[$i]) { Some(v) => v, None => return Some(skip()) } }; }
+    let p = |i: usize| -> usize { a.get(i).and_then(|s| s.parse().ok()).unwrap_or(0) };
+    Some(match name {
+        // ---- constructors from plain iterators
+        "it_empty" => ctor_all!(ty, |T| it3!(std::iter::empty::<T>())),
+        "it_once" => ctor_all!(ty, |T| it3!(std::iter::once(<T as Elem>::tag(3)))),
+        "it_range" => { let n = p(0) as i64; ctor_all!(ty, |T| it3!((0..n).map(<T as Elem>::tag))) }
+        "it_range_filter" => { let (n, m, t) = (p(0) as i64, p(1).max(1) as i64, p(2) as i64); ctor_all!(ty, |T| it3!((0..n).filter(|i| i % m < t).map(<T as Elem>::tag))) }
+        "it_unbounded" => { let n = p(0) as i64; ctor_all!(ty, |T| it3!((0i64..).take_while(|i| *i < n).map(<T as Elem>::tag))) }
+        "it_from_fn" => { let n = p(0) as i64; ctor_all!(ty, |T| it3!({ let mut c = 0i64; std::iter::from_fn(move || { c += 1; if c <= n { Some(<T as Elem>::tag(c)) } else { None } }) })) }
+        "it_huge_hint" => { let n = p(0); ctor_all!(ty, |T| it3!((0..usize::MAX).filter(|i| i % 2 == 0).take_while(|i| *i < 2 * n).map(|i| <T as Elem>::tag(i as i64)))) }
+        "it_repeat_take" => { let n = p(0); ctor_all!(ty, |T| it3!(std::iter::repeat(<T as Elem>::tag(1)).take(n))) }
+        // ---- from an array, by value and by reference
+        "it_collect" => on_all_p!(g!(0), |x| it3!(x.clone().into_iter())),
+        "it_ref" => on_all_p!(g!(0), |x| it3!(x.into_iter().cloned())),
+        "it_for" => on_all_p!(g!(0), |x| { let mut v = vec![]; for e in x { v.push(e.clone()); } let mut w = vec![]; for e in x.clone() { w.push(e); }
+            if v.len() != w.len() { bad(format!("`for e in &array` visits {} elements, `for e in array` {}", v.len(), w.len())); } it3!(v.clone().into_iter().chain(w.clone()).skip(w.len())) }),
+        "it_rev" => on_all_p!(g!(0), |x| it3!(x.clone().into_iter().rev())),
+        "it_filter" => { let (m, t) = (p(1).max(1), p(2)); on_all_p!(g!(0), |x| it3!(x.clone().into_iter().enumerate().filter(|(i, _)| i % m < t).map(|q| q.1))) }
+        "it_filter_ref" => { let (m, t) = (p(1).max(1), p(2)); on_all_p!(g!(0), |x| it3!(x.into_iter().enumerate().filter(|(i, _)| i % m < t).map(|q| q.1.clone()))) }
+        "it_filter_map" => { let (m, t) = (p(1).max(1), p(2)); on_all_p!(g!(0), |x| it3!(x.into_iter().enumerate().filter_map(|(i, e)| if i % m < t { Some(e.clone()) } else { None }))) }
+        "it_flatten" => { let (m, t) = (p(1).max(1), p(2)); on_all_p!(g!(0), |x| it3!(x.clone().into_iter().enumerate().map(|(i, e)| if i % m < t { Some(e) } else { None }).flatten())) }
+        "it_take_while" => { let k = p(1); on_all_p!(g!(0), |x| it3!(x.clone().into_iter().enumerate().take_while(|(i, _)| *i < k).map(|q| q.1))) }
+        "it_skip_while" => { let k = p(1); on_all_p!(g!(0), |x| it3!(x.clone().into_iter().enumerate().skip_while(|(i, _)| *i < k).map(|q| q.1))) }
+        "it_map_while" => { let k = p(1); on_all_p!(g!(0), |x| it3!(x.clone().into_iter().enumerate().map_while(|(i, e)| if i < k { Some(e) } else { None }))) }
+        "it_scan" => { let k = p(1); on_all_p!(g!(0), |x| it3!(x.clone().into_iter().scan(0usize, |c, e| { *c += 1; if *c > k { None } else { Some(e) } }))) }
+        "it_skip" => { let k = p(1); on_all_p!(g!(0), |x| it3!(x.clone().into_iter().skip(k))) }
+        "it_take" => { let k = p(1); on_all_p!(g!(0), |x| it3!(x.clone().into_iter().take(k))) }
+        "it_step_by" => { let m = p(1).max(1); on_all_p!(g!(0), |x| it3!(x.clone().into_iter().step_by(m))) }
+        "it_cycle_take" => { let k = p(1); on_all_p!(g!(0), |x| it3!(x.clone().into_iter().cycle().take(k))) }
+        "it_flat_map" => { let k = p(1); on_all_p!(g!(0), |x| it3!(x.clone().into_iter().flat_map(|e| vec![e; k]))) }
+        "it_peek_fuse" => { let k = p(1); on_all_p!(g!(0), |x| it3!({ let mut i = x.clone().into_iter().peekable(); for _ in 0..k { if i.peek().is_some() { i.next(); } } i.fuse() })) }
+        "it_chain" => on_all2_p!(g!(0), g!(1), |x, y| it3!(x.clone().into_iter().chain(y.clone()))),
+        "it_chain_filter" => { let (m, t) = (p(2).max(1), p(3)); on_all2_p!(g!(0), g!(1), |x, y| it3!(x.clone().into_iter().chain(y.into_iter().cloned()).enumerate().filter(|(i, _)| i % m < t).map(|q| q.1))) }
+        "it_zip_first" => on_all2_p!(g!(0), g!(1), |x, y| it3!(x.clone().into_iter().zip(y.into_iter()).map(|q| q.0))),
+        // ---- Clone
+        "clone" => on_all_p!(g!(0), |x| { let z = must_not_panic("clone()", || x.clone()); same_as(&z, x, "clone()"); let w = z.clone(); same_as(&w, x, "clone() of a clone"); Ok::<_, ArrayError>(z) }),
+        "clone_from" => on_all2_p!(g!(0), g!(1), |t, s| clone_from_how(t, s, a[2])),
+        "clone_from_list" => on_list2!(&gl!(0), &gl!(1), |t, s| clone_from_list_how(&t, &s, a[2])),
+        // ---- closures that call the operation under test themselves; the outer result must be the plain result
+        "re_map" => on_all_p!(g!(0), |x| re_map(x)),
+        "re_filter" => { let (m, t) = (p(1).max(1), p(2)); on_all_p!(g!(0), |x| re_filter(x, m, t)) }
+        "re_filter_map" => { let (m, t) = (p(1).max(1), p(2)); on_all_p!(g!(0), |x| re_filter_map(x, m, t)) }
+        "re_apply" => { let ax = p(1); on_all_p!(g!(0), |x| re_apply(x, ax)) }
+        "re_fold" => on_all_p!(g!(0), |x| re_fold(x)),
+        _ => return None,
+    })
+}
+
 fn run_unmodelled(st: &[V], name: &str, a: &[&str], ty: &str) -> Option<Out> {
+    if name.starts_with("it_") || name.starts_with("clone") || name.starts_with("re_") { return run_std_traits(st, name, a, ty); }
     if !a.is_empty() { if let Some(o) = str_ops(st, name, a) { return Some(o); } }
     macro_rules! g { ($i:expr) => { match get(st, a[$i]) { Some(v) => v, None => return Some(skip()) } }; }
     Some(match name {
@@ -623,14 +786,25 @@ const OPS_NUM_EXTRA: [&str; 17] = ["zeros_like", "ones_like", "full_like", "diag
 const OPS_OPS_EXTRA: [&str; 16] = ["vdot", "outer", "inner", "matmul", "dot", "op_neg", "u.det", "u.qr", "u.eigvals", "u.eig", "u.solve", "u.norm", "u.diff", "u.ediff1d", "u.unwrap_phase", "u.fold"];
 const OPS_STR: [&str; 10] = ["u.zfill", "u.translate", "u.splitlines", "u.multiply", "u.center", "u.ljust", "u.rjust", "u.split", "u.rsplit", "u.replace"];
 
+/// robustness streams part 2: steps through the std traits of `Array` (`u.` = outside the modelled set: C01 monitor + native expectation)
+const OPS_STD: [&str; 41] = ["u.it_empty", "u.it_once", "u.it_range", "u.it_range_filter", "u.it_unbounded", "u.it_from_fn", "u.it_huge_hint", "u.it_repeat_take",
+    "u.it_collect", "u.it_ref", "u.it_for", "u.it_rev", "u.it_filter", "u.it_filter_ref", "u.it_filter_map", "u.it_flatten", "u.it_take_while", "u.it_skip_while", "u.it_map_while",
+    "u.it_scan", "u.it_skip", "u.it_take", "u.it_step_by", "u.it_cycle_take", "u.it_flat_map", "u.it_peek_fuse", "u.it_chain", "u.it_chain_filter", "u.it_zip_first",
+    "u.clone", "u.clone_from", "u.clone_from", "u.clone_from", "u.clone_from_list", "u.clone_from_list", "u.re_map", "u.re_filter", "u.re_filter_map", "u.re_apply", "u.re_fold", "u.it_filter"];
+/// operations that get long, unsorted, mixed-spelling argument lists in the part-2 streams
+const OPS_LONG: [&str; 20] = ["transpose", "moveaxis", "expand_dims", "squeeze", "flip", "roll", "delete", "insert", "atleast", "array_split", "split", "concatenate", "stack",
+    "vstack", "hstack", "dstack", "column_stack", "row_stack", "broadcast_arrays", "reshape"];
+
 fn is_num(t: &str) -> bool { matches!(t, "i32" | "i64" | "u8" | "usize" | "f64" | "isize" | "i8") }
 fn is_ops(t: &str) -> bool { matches!(t, "i32" | "i64" | "f64") }
 fn is_int(t: &str) -> bool { matches!(t, "i32" | "i64" | "u8" | "usize" | "isize" | "bool" | "i8") }
 
-struct G { rng: Rng, steps: Vec<String>, store: Vec<V>, faithful: Vec<bool>, ty: &'static str, wide: bool, big: bool }
+struct G { rng: Rng, steps: Vec<String>, store: Vec<V>, faithful: Vec<bool>, ty: &'static str, wide: bool, big: bool,
+    /// robustness streams part 2: ranks up to 8, long unsorted argument lists, aliased operands, the std-trait steps
+    r3: bool }
 
 impl G {
-    fn new(seed: u64, ty: &'static str) -> G { G { rng: Rng::new(seed), steps: vec![], store: vec![], faithful: vec![], ty, wide: false, big: false } }
+    fn new(seed: u64, ty: &'static str) -> G { G { rng: Rng::new(seed), steps: vec![], store: vec![], faithful: vec![], ty, wide: false, big: false, r3: false } }
     fn coin(&mut self, pct: usize) -> bool { self.rng.below(100) < pct }
     fn dim(&mut self) -> usize {
         // robustness stream: zero-length axes far more often (and in any position), axis lengths 6..17
@@ -638,6 +812,14 @@ impl G {
         match self.rng.below(20) { 0 => 0, 1..=4 => 1, 5..=10 => 2, 11..=15 => 3, 16..=18 => 4, _ => 5 }
     }
     fn shape(&mut self) -> Vec<usize> {
+        if self.r3 {
+            // ranks 5..8 with short axes; one axis of 65..130 (more than 64 parts); otherwise as usual
+            match self.rng.below(10) {
+                0..=2 => loop { let r = 5 + self.rng.below(4); let s: Vec<usize> = (0..r).map(|_| match self.rng.below(20) { 0 => 0, 1..=8 => 1, 9..=16 => 2, _ => 3 }).collect(); if s.iter().product::<usize>() <= 600 { return s; } },
+                3 => { let l: [&[usize]; 8] = [&[70], &[130], &[2, 66], &[65, 2], &[67, 1, 2], &[1, 129], &[3, 65], &[66, 1, 1, 2]]; return l[self.rng.below(l.len())].to_vec(); }
+                _ => {}
+            }
+        }
         if self.wide && self.coin(12) { let mut l = zero_shapes(); l.extend([vec![6, 6], vec![5, 7], vec![33], vec![2, 3, 7], vec![17, 2], vec![3, 0, 2], vec![1, 0, 1], vec![0, 3, 1]]); return l[self.rng.below(l.len())].clone(); }
         let r = match self.rng.below(20) { 0 => 0, 1..=5 => 1, 6..=12 => 2, 13..=17 => 3, _ => 4 };
         (0..r).map(|_| self.dim()).collect()
@@ -659,7 +841,7 @@ impl G {
     }
     fn arrays(&self, pred: &dyn Fn(&str) -> bool) -> Vec<usize> {
         (0..self.store.len()).filter(|&i| match &self.store[i] { V::L(_) | V::Opq(_) | V::Nil => false,
-            v => pred(ty_of(v)) && shape_of(v).map_or(false, |s| s.iter().product::<usize>() <= (if self.big { 10000 } else { 400 }) && s.len() <= 6) }).collect()
+            v => pred(ty_of(v)) && shape_of(v).map_or(false, |s| s.iter().product::<usize>() <= (if self.big { 10000 } else { 400 }) && s.len() <= (if self.r3 { 9 } else { 6 })) }).collect()
     }
     fn pick(&mut self, pred: &dyn Fn(&str) -> bool) -> Option<usize> {
         let c = self.arrays(pred);
@@ -694,6 +876,8 @@ impl G {
         }
     }
     fn partner(&mut self, i: usize, shape: Vec<usize>) -> usize {
+        // aliasing: the SAME array on both sides of the operation
+        if self.r3 && self.coin(18) { return i; }
         let ty = self.tyi(i);
         let c: Vec<usize> = self.arrays(&|t| t == ty).into_iter().filter(|&j| self.sh(j) == shape).collect();
         if !c.is_empty() && self.coin(50) { c[self.rng.below(c.len())] } else { self.fresh(ty, &shape) }
@@ -702,6 +886,7 @@ impl G {
 
     /// emit one step of operation `op` (plus helper constructor steps); false = not applicable now
     fn emit(&mut self, op: &str) -> bool {
+        if OPS_STD.contains(&op) { return self.emit_std(op); }
         let base = op.strip_prefix("u.").unwrap_or(op).to_string();
         let b = base.as_str();
         let ty = self.ty;
@@ -878,6 +1063,107 @@ impl G {
         self.push(format!("{}|{}", name, step));
         true
     }
+
+    fn count(&mut self) -> usize { *self.rng.pick(&[0usize, 1, 2, 3, 5, 8, 10, 17, 33, 100, 257]) }
+    /// the std-trait steps (see `run_std_traits`)
+    fn emit_std(&mut self, op: &str) -> bool {
+        let b = &op[2..];
+        let ty = self.ty;
+        match b {
+            "it_empty" | "it_once" => { self.push(format!("{op}|#{ty}")); return true; }
+            "it_range" | "it_unbounded" | "it_from_fn" | "it_huge_hint" | "it_repeat_take" => { let n = self.count(); self.push(format!("{op}|{n}|#{ty}")); return true; }
+            "it_range_filter" => { let n = self.count(); let m = 1 + self.rng.below(4); let t = self.rng.below(m + 1); self.push(format!("{op}|{n}|{m}|{t}|#{ty}")); return true; }
+            _ => {}
+        }
+        let i = match self.pick(&|_| true) { Some(i) => i, None => return false };
+        let s = self.sh(i);
+        let (r, n) = (s.len(), s.iter().product::<usize>());
+        let step = match b {
+            "it_collect" | "it_ref" | "it_for" | "it_rev" | "clone" | "re_map" | "re_fold" => format!("@{i}"),
+            "it_filter" | "it_filter_ref" | "it_filter_map" | "it_flatten" | "re_filter" | "re_filter_map" => { let m = 1 + self.rng.below(4); format!("@{i}|{m}|{}", self.rng.below(m + 1)) }
+            "it_take_while" | "it_skip_while" | "it_map_while" | "it_scan" | "it_skip" | "it_take" | "it_peek_fuse" => format!("@{i}|{}", self.rng.below(n + 3)),
+            "it_cycle_take" => format!("@{i}|{}", self.rng.below(2 * n + 3)),
+            "it_step_by" => format!("@{i}|{}", 1 + self.rng.below(4)),
+            "it_flat_map" => format!("@{i}|{}", self.rng.below(4)),
+            "it_chain" | "it_zip_first" => { let ps = if self.coin(50) { self.shape() } else { self.compat(&s) }; let j = self.partner(i, ps); format!("@{i}|@{j}") }
+            "it_chain_filter" => { let ps = self.shape(); let j = self.partner(i, ps); let m = 1 + self.rng.below(4); format!("@{i}|@{j}|{m}|{}", self.rng.below(m + 1)) }
+            "re_apply" => { if n > 600 { return false; } format!("@{i}|{}", self.uaxis(r)) }
+            "clone_from" => {
+                let how = *self.rng.pick(&["direct", "direct", "direct", "twice", "into", "option", "box", "result", "vec1", "slice", "self"]);
+                // the other array: the same element type, a shape of lower / equal / higher rank
+                let os: Vec<usize> = match self.rng.below(7) {
+                    0 => vec![n],
+                    1 => { let mut q = s.clone(); let k = self.rng.below(r + 1); q.insert(k, 1 + self.rng.below(2)); q }
+                    2 => { let mut q = s.clone(); q.push(2); q.insert(0, 1); q }
+                    3 => if r >= 2 { s[1..].to_vec() } else { vec![] },
+                    4 => s.iter().map(|&d| (d + 1) % 4).collect(),
+                    5 => s.clone(),
+                    _ => self.shape(),
+                };
+                let j = self.partner(i, os);
+                if self.coin(50) { format!("@{i}|@{j}|{how}") } else { format!("@{j}|@{i}|{how}") }
+            }
+            "clone_from_list" => {
+                if r == 0 { return false; }
+                let t = self.tyi(i);
+                let (ax, p) = (self.rng.below(r), 1 + self.rng.below(4));
+                let ls = self.push(format!("array_split|@{i}|{p}|{ax}"));
+                // the target list: pieces of an array of another (mostly lower) rank
+                let os: Vec<usize> = match self.rng.below(5) { 0 | 1 => vec![n.max(p) + self.rng.below(3)], 2 => vec![p + self.rng.below(3), 2], 3 => { let mut q = s.clone(); q.insert(0, 2); q } _ => self.shape() };
+                let j = self.fresh(t, &os);
+                let q = if self.coin(60) { p } else { 1 + self.rng.below(5) };
+                let lt = self.push(format!("array_split|@{j}|{q}|0"));
+                let how = *self.rng.pick(&["vec", "vec", "vec", "into", "slice", "deque", "boxed"]);
+                if self.coin(75) { format!("@L{lt}|@L{ls}|{how}") } else { format!("@L{ls}|@L{lt}|{how}") }
+            }
+            _ => return false,
+        };
+        self.push(format!("{op}|{step}"));
+        true
+    }
+    /// long, unsorted argument lists with mixed (negative / non-negative) spellings, many parts, many arrays, high `ndmin`
+    fn emit_long(&mut self, op: &str) -> bool {
+        let i = match self.pick(&|_| true) { Some(i) => i, None => return false };
+        let s = self.sh(i);
+        let (r, n) = (s.len(), s.iter().product::<usize>());
+        fn neg(g: &mut G, x: usize, r: usize) -> isize { if g.rng.below(3) == 0 { x as isize - r as isize } else { x as isize } }
+        let step = match op {
+            "transpose" => { if r < 3 { return false; } let p = self.rng.perm(r); let v: Vec<isize> = p.iter().map(|&x| neg(self, x, r)).collect(); format!("@{i}|{}", show_list(&v)) }
+            "moveaxis" => { if r < 3 { return false; } let k = (2 + self.rng.below(4)).min(r); let (p, q) = (self.rng.perm(r), self.rng.perm(r));
+                let src: Vec<isize> = p[..k].iter().map(|&x| neg(self, x, r)).collect(); let dst: Vec<isize> = q[..k].iter().map(|&x| neg(self, x, r)).collect(); format!("@{i}|{}|{}", show_list(&src), show_list(&dst)) }
+            "expand_dims" => { let k = 3 + self.rng.below(3); let fr = r + k; let p = self.rng.perm(fr); let mut v: Vec<isize> = p[..k].iter().map(|&x| neg(self, x, fr)).collect();
+                if self.coin(6) { v.push(v[0]); } format!("@{i}|{}", show_list(&v)) }
+            "squeeze" => { let ones: Vec<usize> = (0..r).filter(|&k| s[k] == 1).collect(); if ones.len() < 2 { return false; }
+                let p = self.rng.perm(ones.len()); let k = 2 + self.rng.below(ones.len() - 1); let v: Vec<isize> = p[..k].iter().map(|&x| neg(self, ones[x], r)).collect(); format!("@{i}|{}", show_list(&v)) }
+            "flip" => { if r == 0 { return false; } let k = 3 + self.rng.below(3); let v: Vec<isize> = (0..k).map(|_| { let x = self.rng.below(r); neg(self, x, r) }).collect(); format!("@{i}|{}", show_list(&v)) }
+            "roll" => { if r == 0 { return false; } let k = 3 + self.rng.below(3); let sh: Vec<isize> = (0..k).map(|_| self.rng.range(-9, 9) as isize).collect();
+                let ax = if self.coin(15) { "none".to_string() } else { show_list(&(0..k).map(|_| { let x = self.rng.below(r); neg(self, x, r) }).collect::<Vec<_>>()) }; format!("@{i}|{}|{}", show_list(&sh), ax) }
+            "delete" => { let ax = self.ouaxis(r); let lim = if ax == "none" { n } else { s.get(ax.parse::<usize>().unwrap_or(0)).copied().unwrap_or(1) };
+                let k = 3 + self.rng.below(4); let ix: Vec<usize> = (0..k).map(|_| if self.coin(3) { lim + 1 } else { self.rng.below(lim.max(1)) }).collect(); format!("@{i}|{}|{}", show_list(&ix), ax) }
+            "insert" => { let k = 3 + self.rng.below(3); let ix: Vec<usize> = (0..k).map(|_| self.rng.below(n + 1)).collect(); let vs = if self.coin(50) { vec![1] } else { vec![k] }; let j = self.partner(i, vs); format!("@{i}|{}|@{}", show_list(&ix), j) }
+            "atleast" => format!("@{i}|{}", 5 + self.rng.below(5)),
+            "array_split" | "split" => { if r == 0 { return false; } let ax = (0..r).max_by_key(|&k| s[k]).unwrap_or(0); let d = s[ax];
+                let parts = if op == "split" { let divs: Vec<usize> = (1..=d.max(1)).filter(|k| d % k == 0).collect(); divs[divs.len() - 1 - self.rng.below(divs.len().min(2))] }
+                    else if d >= 65 && self.coin(70) { 65 + self.rng.below(d - 63) } else { d + self.rng.below(3) };
+                format!("@{i}|{}|{}", parts, ax) }
+            "concatenate" | "stack" | "vstack" | "hstack" | "dstack" | "column_stack" | "row_stack" => {
+                if n > 64 { return false; }
+                let cnt = 5 + self.rng.below(4); let ax = if r == 0 { 0 } else { self.rng.below(r) };
+                let mut ids = vec![i];
+                for _ in 1..cnt { let mut ps = s.clone(); if op == "concatenate" && ax < ps.len() && self.coin(50) { ps[ax] = self.rng.below(4); } ids.push(self.partner(i, ps)); }
+                match op { "concatenate" => format!("@{}|{}", show_list(&ids), if r == 0 || self.coin(15) { "none".to_string() } else { ax.to_string() }), "stack" => format!("@{}|{}", show_list(&ids), self.ouaxis(r + 1)), _ => format!("@{}", show_list(&ids)) } }
+            "broadcast_arrays" => { if n > 64 { return false; } let cnt = 4 + self.rng.below(3); let mut ids = vec![i]; for _ in 1..cnt { let ps = self.compat(&s); ids.push(self.partner(i, ps)); } format!("@{}", show_list(&ids)) }
+            "reshape" => { // the full prime factorisation in random order, padded with unit axes up to rank 8
+                let mut rest = n; let mut f = vec![]; let mut d = 2; while rest > 1 && d <= rest { if rest % d == 0 { f.push(d); rest /= d; } else { d += 1; } }
+                if n == 0 { f = s.clone(); }
+                while f.len() < 5 + self.rng.below(4) { let k = self.rng.below(f.len() + 1); f.insert(k, 1); }
+                if f.len() > 9 { return false; }
+                let p = self.rng.perm(f.len()); let t: Vec<usize> = p.iter().map(|&k| f[k]).collect(); format!("@{i}|{}", show_list(&t)) }
+            _ => return self.emit(op),
+        };
+        self.push(format!("{op}|{step}"));
+        true
+    }
     fn reshape_target(&mut self, s: &[usize]) -> Vec<usize> {
         let n: usize = s.iter().product();
         let mut t: Vec<usize> = match self.rng.below(8) {
@@ -917,6 +1203,7 @@ fn all_ops() -> Vec<String> {
 fn types_for(op: &str) -> Vec<&'static str> {
     let b = op.strip_prefix("u.").unwrap_or(op);
     let all9 = ["i32", "i64", "u8", "usize", "f64", "bool", "str", "t2", "isize", "i8"];
+    if OPS_STD.contains(&op) { return all9.to_vec(); }
     if OPS_STR.contains(&op) || (op.starts_with("u.") && (STR_UNARY.contains(&b) || b == "compare" || (STR_BINARY.contains(&b)))) { return vec!["str"]; }
     if ["new", "create", "single", "flat", "empty"].contains(&op) || OPS_ALL.contains(&op) { return all9.to_vec(); }
     if b == "unpack_bits" || b == "pack_bits" { return vec!["u8"]; }
@@ -933,7 +1220,14 @@ fn emit_chain(g: &G, out: &mut dyn FnMut(String)) {
     out(format!("{} {}", label, g.steps.join(" ")));
 }
 
+/// the chains are built by RUNNING them on the real crate; the crate's quicksort recurses once per element on sorted input, so the
+/// generator runs on a thread with a large stack (like the executor's worker thread)
 fn gen(tier: &str, seed: u64, out: &mut dyn FnMut(String)) {
+    let tier = tier.to_string();
+    let lines = std::thread::Builder::new().stack_size(256 << 20).spawn(move || { let mut v: Vec<String> = vec![]; gen_all(&tier, seed, &mut |l| v.push(l)); v }).unwrap().join().unwrap();
+    for l in lines { out(l); }
+}
+fn gen_all(tier: &str, seed: u64, out: &mut dyn FnMut(String)) {
     let thorough = tier == "thorough";
     // (i) corpus of past failures / hand-written chains that hit the value-dependent and the bypass operations
     for c in [
@@ -1067,6 +1361,128 @@ fn gen(tier: &str, seed: u64, out: &mut dyn FnMut(String)) {
         }
         emit_chain(&g, out);
     }
+    gen_part2(thorough, seed, out);
+    // the last case reports (and demands) the validations of the native shape oracle against the model and the A-B-A re-runs
+    out("oracle_validations single|#i64".to_string());
+}
+
+/// groups of shapes that collide under a key a cache could plausibly use (weak polynomial hashes, element count, sorted axes)
+fn c01_collision_groups() -> Vec<Vec<Vec<usize>>> {
+    let mut g: Vec<Vec<Vec<usize>>> = collision_shape_pairs().into_iter().map(|(a, b)| vec![a, b]).collect();
+    for &m in &[31usize, 131] { g.push(vec![vec![1, 3], vec![m + 3]]); g.push(vec![vec![1, 2, 3], vec![m + 2, 3], vec![0, 2 + m, 3]]); }
+    g.push(vec![vec![2, 3], vec![2, 259], vec![258, 3]]);
+    g.push(vec![vec![2, 6], vec![3, 4], vec![4, 3], vec![6, 2], vec![12], vec![1, 12], vec![12, 1], vec![2, 2, 3], vec![2, 3, 2], vec![3, 2, 2]]);
+    g.push(vec![vec![2, 3, 4], vec![4, 3, 2], vec![3, 4, 2], vec![2, 4, 3], vec![24], vec![4, 6], vec![6, 4]]);
+    g.push(vec![vec![2, 3], vec![3, 2], vec![6], vec![1, 6], vec![6, 1], vec![1, 2, 3], vec![2, 3, 1], vec![2, 1, 3]]);
+    g.push(vec![vec![16, 17], vec![17, 16], vec![272], vec![2, 136], vec![136, 2]]);
+    g
+}
+
+/// robustness streams, part 2 (after the third round of seeded changes)
+fn gen_part2(thorough: bool, seed: u64, out: &mut dyn FnMut(String)) {
+    let prod = |s: &[usize]| s.iter().product::<usize>();
+    // (vii) the std-trait steps (FromIterator / IntoIterator / Clone / re-entrant closures) as chains on base arrays of every element type
+    let bases: Vec<Vec<usize>> = vec![vec![], vec![0], vec![1], vec![4], vec![10], vec![2, 3], vec![3, 1], vec![2, 0], vec![2, 2, 2], vec![2, 3, 4], vec![1, 2, 1, 2], vec![0, 0], vec![2, 3, 0], vec![33], vec![5, 7], vec![17, 2], vec![2, 1, 2, 1, 2, 1], vec![300]];
+    let all9 = ["i32", "i64", "u8", "usize", "f64", "bool", "str", "t2", "isize", "i8"];
+    let mut std_ops: Vec<&str> = OPS_STD.to_vec(); std_ops.sort(); std_ops.dedup();
+    for (oi, op) in std_ops.iter().enumerate() {
+        for (ti, ty) in all9.iter().enumerate() {
+            for (bi, base) in bases.iter().enumerate() {
+                let ctor = ["u.it_empty", "u.it_once", "u.it_range", "u.it_range_filter", "u.it_unbounded", "u.it_from_fn", "u.it_huge_hint", "u.it_repeat_take"].contains(op);
+                if ctor && bi >= 8 { continue; }
+                if bi >= 11 && (ti + bi + oi) % 3 != 0 && !thorough { continue; }
+                let reps = if op.starts_with("u.clone_from") { 4 } else if thorough { 2 } else { 1 };
+                for rep in 0..reps {
+                    let mut g = G::new(0x57D + (oi * 10000 + ti * 1000 + bi * 10 + rep) as u64, if *ty == "isize" { "i64" } else { ty }); g.r3 = true; g.big = true;
+                    if !ctor { g.fresh(ty, base); }
+                    if g.emit(op) { emit_chain(&g, out); }
+                }
+            }
+        }
+    }
+    // the literal shapes of the std documentation examples, every element type
+    for ty in all9 {
+        out(format!("u.it_range_filter u.it_range_filter|10|2|1|#{ty}|=A5 reshape|@0|5 transpose|@1|none"));
+        out(format!("u.clone_from flat|6|#{ty} new|6|1|2,3|#{ty} u.clone_from|@0|@1|direct|=A2,3 transpose|@2|none reshape|@2|3,2 u.clone_from|@1|@0|direct|=A6 ravel|@5"));
+        out(format!("u.clone_from_list new|12|0|3,4|#{ty} new|4|0|4|#{ty} array_split|@0|2|1 array_split|@1|2|0 u.clone_from_list|@L3|@L2|vec|=L3,2/3,2 member|@4|0 transpose|@5|none"));
+    }
+    // (viii) hidden state: colliding shapes back to back through the count-checking constructors and reshapes, both orders,
+    //        failing calls directly followed by valid ones, and the same arguments through different element types
+    let tys = ["i64", "u8", "f64", "i32", "bool", "i8", "str", "usize"];
+    for (gi, grp) in c01_collision_groups().iter().enumerate() {
+        for order in 0..2 {
+            let g: Vec<Vec<usize>> = if order == 0 { grp.clone() } else { grp.iter().rev().cloned().collect() };
+            let m = g.len();
+            let mut steps: Vec<String> = vec![];
+            for (k, s) in g.iter().enumerate() { steps.push(format!("new|{}|0|{}|#{}", prod(s), show_list(s), tys[(gi + k) % tys.len()])); }
+            // every member asked for the shape of its neighbour (refused unless the counts agree), then for its own again
+            for k in 0..m { let nb = &g[(k + 1) % m]; steps.push(format!("reshape|@{}|{}", k, show_list(nb))); steps.push(format!("new|{}|0|{}|#{}", prod(&g[k]), show_list(nb), tys[(gi + k) % tys.len()])); steps.push(format!("reshape|@{}|{}", k, show_list(&g[k]))); }
+            for (k, s) in g.iter().enumerate() { steps.push(format!("zeros|{}|#{}", show_list(s), ["i64", "u8", "f64", "i32"][(gi + k) % 4])); steps.push(format!("create|{}|{}|none|#{}", prod(s), show_list(s), tys[(gi + k + 1) % tys.len()])); }
+            for k in 0..m { steps.push(format!("ravel|@{}", k)); let last = steps.len() - 1; steps.push(format!("reshape|@{}|{}", last, show_list(&g[k]))); steps.push(format!("resize|@{}|{}", k, show_list(&g[(k + 1) % m]))); steps.push(format!("broadcast_to|@{}|{}", k, show_list(&g[k]))); }
+            out(format!("reshape {}", steps.join(" ")));
+            // shape-keyed plans of other operations: the same operation on every member in turn, twice
+            if order == 0 && prod(&g[0]) <= 300 {
+                for (oi, opt) in ["transpose|@{}|none", "flip|@{}|none", "atleast|@{}|3", "expand_dims|@{}|0", "squeeze|@{}|none", "roll|@{}|1|none", "roll|@{}|1|0", "flip|@{}|0", "map|@{}", "repeat|@{}|2|none", "cycle_take|@{}|5", "array_split|@{}|2|0", "u.it_filter|@{}|2|1", "u.clone|@{}", "sort|@{}|-1|none", "argmax|@{}|0|none", "count_nonzero|@{}|none|none", "delete|@{}|0|0"].iter().enumerate() {
+                    let ty = tys[(gi + oi) % 6];
+                    let mut gg = G::new(0x41D + (gi * 100 + oi) as u64, "i64"); gg.r3 = false; gg.big = true;
+                    for s in &g { gg.push(format!("new|{}|0|{}|#{}", prod(s), show_list(s), ty)); }
+                    for _round in 0..2 { for k in 0..m { gg.push(opt.replace("{}", &k.to_string())); } }
+                    emit_chain(&gg, out);
+                }
+            }
+        }
+    }
+    // (ix) huge arrays: 16 384 .. 140 000 elements.  Operations whose model is linear are modelled steps; the ones whose model is
+    //      quadratic are `u.` steps judged by the native shape oracle (`native_rec`), which the same run validates against the model
+    let mut huge = huge_shapes();
+    huge.extend(vec![vec![65537], vec![3, 65537], vec![4, 181, 181], vec![2; 14]]);
+    if thorough { huge.extend(vec![vec![140001], vec![7, 131, 151], vec![1, 66000, 2, 1]]); }
+    let hty = ["i64", "u8", "bool", "i8", "f64", "i32", "usize", "str"];
+    for (hi, s) in huge.iter().enumerate() {
+        let (n, r) = (prod(s), s.len());
+        let ty = hty[hi % hty.len()];
+        let mut rev = s.clone(); rev.reverse();
+        let mut g = G::new(0x406E + hi as u64, "i64"); g.big = true;
+        g.push(format!("new|{}|0|{}|#{}", n, show_list(s), ty));
+        g.push(format!("new|{}|0|{}|#{}", n + 1, show_list(s), ty));
+        for st in [format!("reshape|@0|{}", show_list(&rev)), "ravel|@0".to_string(), format!("reshape|@3|{}", show_list(s)), "flip|@0|none".to_string(), format!("flip|@0|{}", r - 1), "expand_dims|@0|0,-1".to_string(),
+                   "squeeze|@7|none".to_string(), "map|@0".to_string(), "roll|@0|3|none".to_string(), "repeat|@0|2|none".to_string(), "filter_e|@0|3|1".to_string(), "append|@0|@0|none".to_string(),
+                   format!("reshape|@0|{}", n + 1), format!("reshape|@0|{},2", n / 2 + 1), format!("broadcast_to|@3|2,{}", n), "atleast|@0|6".to_string(), "count_nonzero|@0|none|none".to_string(),
+                   "u.it_collect|@0".to_string(), "u.it_filter|@0|2|1".to_string(), "u.it_ref|@0".to_string(), "u.clone|@0".to_string(), "u.clone_from|@3|@0|direct".to_string(), "u.clone_from|@0|@3|direct".to_string(),
+                   "u.it_take_while|@0|16385".to_string(), "u.it_chain|@0|@3".to_string()] { g.push(st); }
+        emit_chain(&g, out);
+        // the quadratic-model operations: `u.` steps, native oracle
+        let ity = ["i64", "i32", "f64"][hi % 3];
+        let mut g = G::new(0x406F + hi as u64, "i64"); g.big = true;
+        g.push(format!("new|{}|0|{}|#{}", n, show_list(s), ity));
+        let mut sts = vec!["u.transpose|@0|none".to_string(), format!("u.sum|@0|{}", r as isize - 1), "u.max|@0|0".to_string(), "u.min|@0|none".to_string(), "u.cumsum|@0|-1".to_string(), "u.cumsum|@0|none".to_string(),
+            format!("u.sort|@0|-1|{}", if s[r - 1] > 400 { "s:heapsort" } else { "none" }), "u.sort|@0|none|s:mergesort".to_string(), format!("u.argsort|@0|0|{}", if s[0] > 400 { "s:stable" } else { "none" }), "u.concatenate|@0,0|none".to_string(), format!("u.array_split|@0|{}|0", s[0].min(7)), format!("u.array_split|@0|{}|{}", s[r - 1].min(70), r - 1)];
+        if r >= 2 { sts.extend(vec![format!("u.transpose|@0|{}", show_list(&(0..r as isize).map(|k| { let v = (k + 1) % r as isize; if k % 2 == 1 { v - r as isize } else { v } }).collect::<Vec<_>>())), "u.swapaxes|@0|0|-1".to_string(), "u.argmax|@0|0|none".to_string(), "u.argmin|@0|-1|true".to_string(), "u.count_nonzero|@0|1|false".to_string(),
+            "u.concatenate|@0,0,0|0".to_string(), format!("u.concatenate|@0,0|{}", r - 1), "u.delete|@0|1,0|0".to_string(), format!("u.delete|@0|0|{}", r - 1)]); }
+        for st in sts { g.push(st); }
+        emit_chain(&g, out);
+    }
+    // (x) seeded random chains: ranks up to 8, long unsorted argument lists, > 64 parts, aliased operands, the std-trait steps in between
+    let (n_chains, max_len) = if thorough { (9000, 30) } else { (2600, 12) };
+    let ops = all_ops();
+    let mut top = Rng::new(seed ^ 0x0A11_A5ED);
+    for c in 0..n_chains {
+        let ty = TYPES2[top.below(TYPES2.len())];
+        let mut g = G::new(top.next() ^ c as u64, ty); g.r3 = true;
+        let len = 2 + g.rng.below(max_len);
+        let s0 = g.shape(); g.fresh(ty, &s0);
+        let mut tries = 0;
+        while g.steps.len() < len && tries < 4 * max_len {
+            tries += 1;
+            match g.rng.below(10) {
+                0..=2 => { let op = OPS_STD[g.rng.below(OPS_STD.len())]; g.emit(op); }
+                3..=5 => { let op = OPS_LONG[g.rng.below(OPS_LONG.len())]; g.emit_long(op); }
+                6 => { let op = if g.coin(30) { CTORS[g.rng.below(CTORS.len())].to_string() } else { OPS_ALL[g.rng.below(OPS_ALL.len())].to_string() }; g.emit(&op); }
+                _ => { let op = ops[g.rng.below(ops.len())].clone(); g.emit(&op); }
+            }
+        }
+        emit_chain(&g, out);
+    }
 }
 
 // ---------------------------------------------------------------- exec: re-run the chain, monitor, compare with the model
@@ -1096,35 +1512,128 @@ fn shrink(steps: &[&str], k: usize) -> Vec<String> {
         }).collect::<Vec<_>>().join("|")
     }).collect()
 }
-fn run_chain(steps: &[&str]) -> (Vec<String>, Vec<(usize, String)>) {
+// ---------------------------------------------------------------- harness-native shape oracle (huge arrays)
+
+/// Operations whose Lean model is quadratic in the element count (one list `drop` per lane / piece) are, on arrays of 16 384 ..
+/// 140 000 elements, emitted as `u.` steps and judged by this oracle: the result shape written down directly from the
+/// operation's documented meaning.  The oracle is VALIDATED AGAINST THE MODEL on every modelled step of the same run it
+/// applies to (thousands of smaller cases; counted, and the run fails if the count is zero or any validation disagrees).
+/// `None` = the oracle does not speak about this call (invalid arguments, empty arrays, rank-1 reductions, ...).
+fn native_rec(st: &[V], name: &str, a: &[&str]) -> Option<String> {
+    let sh = |k: usize| -> Option<Vec<usize>> { let v = get(st, a.get(k)?)?; if matches!(v, V::L(_) | V::Nil) { None } else { shape_of(v) } };
+    let norm = |ax: isize, r: usize| -> Option<usize> { let x = if ax < 0 { ax + r as isize } else { ax }; if x >= 0 && (x as usize) < r { Some(x as usize) } else { None } };
+    let arr = |t: &[usize]| format!("A{}", show_list(t));
+    let s = if name == "concatenate" { vec![] } else { sh(0)? };
+    let (r, n) = (s.len(), s.iter().product::<usize>());
+    if name != "concatenate" && n == 0 { return None; }
+    let without = |k: usize| -> Vec<usize> { let mut t = s.clone(); t.remove(k); t };
+    match name {
+        "transpose" => match oil(a[1]) {
+            None => { let mut t = s.clone(); t.reverse(); Some(arr(&t)) }
+            Some(p) => { if p.len() != r { return None; } let q: Vec<usize> = p.iter().map(|&x| norm(x, r)).collect::<Option<_>>()?;
+                let mut seen = vec![false; r]; for &k in &q { if seen[k] { return None; } seen[k] = true; } Some(arr(&q.iter().map(|&k| s[k]).collect::<Vec<_>>())) }
+        },
+        "swapaxes" => { let (i, j) = (norm(is(a[1]), r)?, norm(is(a[2]), r)?); let mut t = s.clone(); t.swap(i, j); Some(arr(&t)) }
+        "sum" | "prod" | "max" | "min" | "amax" | "amin" => match oisz(a[1]) { None => Some(arr(&[1])), Some(ax) => { if r < 2 { return None; } Some(arr(&without(norm(ax, r)?))) } },
+        "cumsum" | "cumprod" => match oisz(a[1]) { None => Some(arr(&[n])), Some(ax) => { norm(ax, r)?; Some(arr(&s)) } },
+        "sort" | "argsort" => { if a[2] != "none" && kind_enum(a[2].strip_prefix("s:")?).is_none() { return None; } match oisz(a[1]) { None => Some(arr(&[n])), Some(ax) => { norm(ax, r)?; Some(arr(&s)) } } }
+        "argmax" | "argmin" | "count_nonzero" => { if r < 2 { return None; } let k = norm(oisz(a[1])?, r)?; match obool(a[2]) { Some(true) => { let mut t = s.clone(); t[k] = 1; Some(arr(&t)) } _ => Some(arr(&without(k))) } }
+        "concatenate" => {
+            if a[0].starts_with("@L") { return None; }
+            let ids: Vec<usize> = a[0].strip_prefix('@')?.split(',').map(|x| x.parse().ok()).collect::<Option<_>>()?;
+            let shapes: Vec<Vec<usize>> = ids.iter().map(|&k| { let v = st.get(k)?; if matches!(v, V::L(_) | V::Nil) { None } else { shape_of(v) } }).collect::<Option<_>>()?;
+            if shapes.len() < 2 || shapes.iter().any(|t| t.iter().product::<usize>() == 0) { return None; }
+            match ousz(a[1]) {
+                None => Some(arr(&[shapes.iter().map(|t| t.iter().product::<usize>()).sum()])),
+                Some(k) => { let f = &shapes[0]; if k >= f.len() || f.len() < 2 { return None; }
+                    if shapes.iter().any(|t| t.len() != f.len() || (0..f.len()).any(|d| d != k && t[d] != f[d])) { return None; }
+                    let mut t = f.clone(); t[k] = shapes.iter().map(|x| x[k]).sum(); Some(arr(&t)) }
+            }
+        }
+        "array_split" => { let p = us(a[1]); let k = ousz(a[2]).unwrap_or(0); if k >= r || p == 0 || p > s[k] { return None; }
+            let (d, m) = (s[k] / p, s[k] % p);
+            Some(format!("L{}", (0..p).map(|j| { let mut t = s.clone(); t[k] = if j < m { d + 1 } else { d }; show_list(&t) }).collect::<Vec<_>>().join("/"))) }
+        "delete" => { let k = ousz(a[2])?; if k >= r || r < 2 { return None; } let mut ix = ul(a[1]); ix.sort(); ix.dedup(); if ix.iter().any(|&x| x >= s[k]) || ix.len() >= s[k] { return None; }
+            let mut t = s.clone(); t[k] -= ix.len(); Some(arr(&t)) }
+        _ => None,
+    }
+}
+static ORACLE_VALIDATED: std::sync::atomic::AtomicUsize = std::sync::atomic::AtomicUsize::new(0);
+static ORACLE_JUDGED: std::sync::atomic::AtomicUsize = std::sync::atomic::AtomicUsize::new(0);
+static ABA_RERUNS: std::sync::atomic::AtomicUsize = std::sync::atomic::AtomicUsize::new(0);
+
+fn run_chain(steps: &[&str]) -> (Vec<String>, Vec<(usize, String)>, Vec<Option<String>>) {
     let mut store: Vec<V> = vec![];
     let mut recs = vec![];
     let mut bad = vec![];
+    let mut natives = vec![];
     for (i, st) in steps.iter().enumerate() {
         let mut b = vec![];
+        let fields: Vec<&str> = st.split('|').filter(|f| !f.starts_with('#') && !f.starts_with('=')).collect();
+        natives.push(catch_unwind(AssertUnwindSafe(|| native_rec(&store, fields[0].strip_prefix("u.").unwrap_or(fields[0]), &fields[1..]))).unwrap_or(None));
         let o = run_step(&store, st, &mut b);
         for m in b { bad.push((i, m)); }
         recs.push(if o.cls == "unknown" { "?".to_string() } else { record(&o) });
         store.push(if o.cls == "ok" { o.v } else { V::Nil });
     }
-    (recs, bad)
+    (recs, bad, natives)
 }
 fn label_of(step: &str) -> &str { step.split('|').next().unwrap_or("") }
+
+thread_local! {
+    static PREV_CHAIN: RefCell<Option<(String, Vec<String>)>> = const { RefCell::new(None) };
+    static ABA_TICK: Cell<usize> = const { Cell::new(0) };
+}
 
 fn exec(_op: &str, args: &[&str], expected: &str) -> Option<Verdict> {
     let exp: Vec<&str> = expected.strip_prefix("ok ")?.split(';').collect();
     if exp.len() != args.len() { return None; }
     TWIN_ON.with(|c| c.set(true));
-    let (recs, bad) = run_chain(args);
+    let (recs, bad, natives) = run_chain(args);
     if recs.iter().any(|r| r == "?") { return None; }
     let observed = format!("ok {}", recs.join(";"));
+    // A-B-A (hidden state): every third chain, the previous chain is run again after this one and must answer as before
+    let aba = PREV_CHAIN.with(|p| {
+        let mut p = p.borrow_mut();
+        let mut finding = None;
+        if let Some((line, old)) = p.as_ref() {
+            if ABA_TICK.with(|c| { c.set(c.get() + 1); c.get() % 3 == 0 }) && !line.split(' ').any(|st| st.starts_with("rand|")) {
+                let steps: Vec<&str> = line.split(' ').collect();
+                let (again, bad_again, _) = run_chain(&steps);
+                ABA_RERUNS.fetch_add(1, std::sync::atomic::Ordering::Relaxed);
+                if &again != old { finding = Some(format!("A-B-A: the previous chain `C01.{} {}` answered {} before this chain and {} after it (hidden state)", label_of(steps[steps.len() - 1]), truncate(line, 300), old.join(";"), again.join(";"))); }
+                else if let Some((k, m)) = bad_again.first() { finding = Some(format!("A-B-A: the previous chain `{}` re-run after this chain: step {} {}", truncate(line, 300), k, m)); }
+            }
+        }
+        *p = Some((args.join(" "), recs.clone()));
+        finding
+    });
     // 1. the property itself: an inconsistent array was RETURNED by some step
     if let Some((k, msg)) = bad.first() {
         let small = shrink(args, *k);
         let small_refs: Vec<&str> = small.iter().map(String::as_str).collect();
-        let (_, bad2) = run_chain(&small_refs);
+        let (_, bad2, _) = run_chain(&small_refs);
         let chain = if bad2.is_empty() { args[..=*k].join(" ") } else { small.join(" ") };
         return Some(Verdict::Mismatch { observed, detail: format!("C01 monitor: step {} `{}` {}; shortest failing chain: C01.{} {}", k, args[*k], msg, label_of(args[*k]), chain) });
+    }
+    if let Some(f) = aba { return Some(Verdict::Mismatch { observed, detail: f }); }
+    // 1b. the native shape oracle: validated against the model on modelled steps, judging the `u.` steps on huge arrays
+    for k in 0..args.len() {
+        let Some(nr) = &natives[k] else { continue };
+        let name = label_of(args[k]);
+        if name.starts_with("u.") {
+            if recs[k] == "E" || recs[k] == "P" || recs[k] == "S" { continue; }
+            ORACLE_JUDGED.fetch_add(1, std::sync::atomic::Ordering::Relaxed);
+            if &recs[k] != nr { return Some(Verdict::Mismatch { observed, detail: format!("step {} `{}`: real crate {} , native shape oracle {} (oracle validated against the model on {} steps so far)", k, args[k], recs[k], nr, ORACLE_VALIDATED.load(std::sync::atomic::Ordering::Relaxed)) }); }
+        } else if exp[k].starts_with('A') || exp[k].starts_with('L') {
+            ORACLE_VALIDATED.fetch_add(1, std::sync::atomic::Ordering::Relaxed);
+            if exp[k] != nr { return Some(Verdict::Mismatch { observed, detail: format!("step {} `{}`: the harness-native shape oracle says {} but the model {} (the oracle is wrong: fix the harness)", k, args[k], nr, exp[k]) }); }
+        }
+    }
+    if _op == "oracle_validations" {
+        let (v, j, r) = (ORACLE_VALIDATED.load(std::sync::atomic::Ordering::Relaxed), ORACLE_JUDGED.load(std::sync::atomic::Ordering::Relaxed), ABA_RERUNS.load(std::sync::atomic::Ordering::Relaxed));
+        let text = format!("ok native-oracle-validated-against-model={v};judged-by-oracle={j};aba-reruns={r}");
+        return Some(if v == 0 || r == 0 { Verdict::Mismatch { observed: text, detail: "the native shape oracle was not validated against the model in this run".into() } } else { Verdict::Match(text) });
     }
     // 2. the tie: modelled steps must agree with the store machine on outcome class and shape
     let mut open: Option<String> = None;
